@@ -366,25 +366,96 @@ func propC05Refs(c *Ctx) {
 		n++
 		okv, errv := extractOf(call, 0), extractOf(call, 1)
 		good := false
+		detail := "a successful reference check is followed by an append to Integration.Dependencies"
 		if okv != nil && errv != nil {
 			okT, _ := boolEdges(okv)
 			isNil, _ := nilTestEdges(errv)
-			allInstrs(e.In, func(in ssa.Instruction) {
-				st, isSt := in.(*ssa.Store)
-				if !isSt {
-					return
+			// stores to Dependencies: in the visiting function itself, or in a
+			// helper it calls (the store is then "at" the call of the helper)
+			type cand struct {
+				st *ssa.Store
+				at ssa.Instruction
+			}
+			var cands []cand
+			storesIn := func(f *ssa.Function) []*ssa.Store {
+				var out []*ssa.Store
+				allInstrs(f, func(in ssa.Instruction) {
+					if st, isSt := in.(*ssa.Store); isSt {
+						if fd, _ := fieldOf(st.Addr); fd == fDeps {
+							out = append(out, st)
+						}
+					}
+				})
+				return out
+			}
+			for _, st := range storesIn(e.In) {
+				cands = append(cands, cand{st, st})
+			}
+			for _, ci := range callsIn(e.In) {
+				if h := regionCallee(ci); h != nil && h != e.In && isRepoFunc(h) {
+					for _, st := range storesIn(h) {
+						if passesBeforeReturn(st) {
+							cands = append(cands, cand{st, ci})
+						}
+					}
 				}
-				if f, _ := fieldOf(st.Addr); f != fDeps {
-					return
+			}
+			for _, cd := range cands {
+				r1, _ := reach(siteOf(call), isInstr(cd.at), newCuts().addEdges(okT))
+				r2, _ := reach(siteOf(call), isInstr(cd.at), newCuts().addEdges(isNil))
+				r3, _ := reach(siteOf(call), isInstr(cd.at), nil)
+				if !(r3 && !r1 && !r2) {
+					continue
 				}
-				r1, _ := reach(siteOf(call), isInstr(st), newCuts().addEdges(okT))
-				r2, _ := reach(siteOf(call), isInstr(st), newCuts().addEdges(isNil))
-				r3, _ := reach(siteOf(call), isInstr(st), nil)
-				if r3 && !r1 && !r2 {
-					good = true
+				// the stored list extends the list it replaces (same object's field)
+				ext := false
+				if ap, isCall := stripConv(cd.st.Val).(*ssa.Call); isCall && calleeName(ap) == "builtin append" {
+					if u, isU := stripConv(ap.Call.Args[0]).(*ssa.UnOp); isU && u.Op == token.MUL {
+						if fa, isFA := u.X.(*ssa.FieldAddr); isFA {
+							if fd, base := fieldOf(fa); fd == fDeps {
+								_, stBase := fieldOf(cd.st.Addr)
+								ext = sameAddr(base, stBase)
+							}
+						}
+					}
 				}
-			})
+				if !ext {
+					detail = "the list stored into Integration.Dependencies is not the integration's current list extended by the new reference (a stale copy drops the dependencies registered before)"
+					continue
+				}
+				good = true
+			}
 		}
-		c.Check("R5.3", fmt.Sprintf("ValidateFilterRefs/visit#%d-registers-dependency", n), instrPos(call), good, "a successful reference check is followed by an append to Integration.Dependencies")
+		c.Check("R5.3", fmt.Sprintf("ValidateFilterRefs/visit#%d-registers-dependency", n), instrPos(call), good, detail)
 	}
+}
+
+// sameAddr: two pointer values denote the same memory (not a copy of it):
+// the same value, the same element of the same slice variable, or the same
+// field of the same address.
+func sameAddr(a, b ssa.Value) bool {
+	a, b = stripConv(a), stripConv(b)
+	if a == b {
+		return true
+	}
+	switch x := a.(type) {
+	case *ssa.IndexAddr:
+		if y, ok := b.(*ssa.IndexAddr); ok {
+			return sameVar(x.X, y.X) && x.Index == y.Index
+		}
+	case *ssa.FieldAddr:
+		if y, ok := b.(*ssa.FieldAddr); ok {
+			return x.Field == y.Field && sameAddr(x.X, y.X)
+		}
+	case *ssa.UnOp:
+		// loads of the same pointer variable
+		if y, ok := b.(*ssa.UnOp); ok && x.Op == token.MUL && y.Op == token.MUL {
+			if _, isAlloc := x.X.(*ssa.Alloc); isAlloc && x.X == y.X && x.Type() == y.Type() {
+				if _, isPtr := x.Type().Underlying().(*types.Pointer); isPtr {
+					return true
+				}
+			}
+		}
+	}
+	return false
 }
